@@ -30,6 +30,20 @@ def _types(kind):
     return out
 
 
+def _load_literals_early():
+    try:
+        lits = json.load(open(os.path.join(HERE, "..", "work", "literals.json")))
+    except Exception:
+        lits = []
+    out = set()
+    for v in lits:
+        for d in (-1, 0, 1):
+            if 0 <= v + d <= 65535:
+                out.add(v + d)
+    return sorted(out)
+
+
+LITERALS = _load_literals_early()
 V9_TYPES = _types("v9field")      # field number -> library type name
 IP_TYPES = _types("ipfield")
 V9_BY_TY, IP_BY_TY = {}, {}
@@ -222,6 +236,10 @@ class Exporter:
             # ids at the reserved / data boundary (non-conformant for a template id: the spec oracle is switched off)
             self.dirty = True
             return self.rng.choice([255, 255, 254, 253, 4, 2, 1, 0])
+        if self.rng.random() < 0.15:
+            hi = [v for v in LITERALS if v >= 256]
+            if hi:
+                return self.rng.choice(hi)       # template ids taken from the integer literals of the source (still conformant)
         return self.rng.choice([256, 257, 258, 300, 1000, 65535])
 
     def v9_msg(self, nsets=None, allow_opts=True):
@@ -743,6 +761,60 @@ def fam_boundaries(rng):
         for v in (2 ** 32 - 1, 2 ** 32, 2 ** 32 + 1, 2 ** 64 - 1, 0):
             dm = {"ipfix": {"m": {"exportTime": 2, "seq": 2, "odid": 1, "sets": [{"data": {"id": 256, "recs": [[{"content": hx(v.to_bytes(8, "big")), "form": "fixed"}]], "pad": ""}}]}}}
             out.append(("boundary-duration-2^32", [op_new(0), op_parse(0, msgs=[tm2]), op_parse(0, msgs=[dm])]))
+    return out + fam_literals(rng, cap=60)
+
+
+def load_literals():
+    """integer literals of the library source as harvested by translate.py on THIS run (plus neighbours)"""
+    path = os.path.join(HERE, "..", "work", "literals.json")
+    try:
+        lits = json.load(open(path))
+    except Exception:
+        lits = [0, 1, 2, 3, 4, 5, 7, 9, 10, 16, 255, 32767, 32768, 65535]
+    out = set()
+    for v in lits:
+        for d in (-1, 0, 1):
+            if 0 <= v + d <= 65535:
+                out.add(v + d)
+    return sorted(out)
+
+
+def fam_literals(rng, cap=None):
+    """every integer literal of the source (and its neighbours) used as template id, flowset / set id, field type
+    number and field length — raw behaviour compared with the model (and the always-on oracles)"""
+    out = []
+    vals = load_literals()
+    if cap is not None and len(vals) > cap:
+        vals = sorted(rng.sample(vals, cap))
+    def v9hdr(count):
+        return (9).to_bytes(2, "big") + count.to_bytes(2, "big") + bytes(16)
+    def iphdr(total):
+        return (10).to_bytes(2, "big") + total.to_bytes(2, "big") + bytes(12)
+    for v in vals:
+        b2 = v.to_bytes(2, "big")
+        # as template id + data flowset id (V9 and IPFIX)
+        tb = b2 + (1).to_bytes(2, "big") + (1).to_bytes(2, "big") + (4).to_bytes(2, "big")
+        fs9 = (0).to_bytes(2, "big") + (4 + len(tb)).to_bytes(2, "big") + tb
+        st10 = (2).to_bytes(2, "big") + (4 + len(tb)).to_bytes(2, "big") + tb
+        data = b2 + (12).to_bytes(2, "big") + bytes([0, 0, 0, 7, 0, 0, 1, 0])
+        out.append(("literal-id", [op_new(0), op_parse(0, hexs=hx(v9hdr(1) + fs9)), op_parse(0, hexs=hx(v9hdr(1) + data)),
+                                   op_parse(0, hexs=hx(iphdr(16 + len(st10)) + st10)), op_parse(0, hexs=hx(iphdr(28) + data))]))
+        # as field type number (template id 256) and as field length (string type), V9 and IPFIX
+        for typ, ln in ((v, 4), (94, min(v, 300))):
+            tb = (256).to_bytes(2, "big") + (2).to_bytes(2, "big") + typ.to_bytes(2, "big") + ln.to_bytes(2, "big") + (1).to_bytes(2, "big") + (2).to_bytes(2, "big")
+            if typ > 32767:
+                tb10 = (256).to_bytes(2, "big") + (2).to_bytes(2, "big") + typ.to_bytes(2, "big") + ln.to_bytes(2, "big") + (9).to_bytes(4, "big") + (1).to_bytes(2, "big") + (2).to_bytes(2, "big")
+            else:
+                tb10 = tb
+            body = rbytes(rng, 2 * (ln + 2))
+            fs9 = (0).to_bytes(2, "big") + (4 + len(tb)).to_bytes(2, "big") + tb
+            st10 = (2).to_bytes(2, "big") + (4 + len(tb10)).to_bytes(2, "big") + tb10
+            data = (256).to_bytes(2, "big") + (4 + len(body)).to_bytes(2, "big") + body
+            out.append(("literal-field", [op_new(0), op_parse(0, hexs=hx(v9hdr(1) + fs9)), op_parse(0, hexs=hx(v9hdr(1) + data)),
+                                          op_parse(0, hexs=hx(iphdr(16 + len(st10)) + st10)), op_parse(0, hexs=hx(iphdr(16 + len(data)) + data))]))
+        # as V9 flowset count / V5 record count with a short body
+        out.append(("literal-count", [op_new(0), op_parse(0, hexs=hx((9).to_bytes(2, "big") + b2 + bytes(16) + fs9)),
+                                      op_parse(0, hexs=hx((5).to_bytes(2, "big") + b2 + bytes(20) + bytes(48 * min(v, 3))))]))
     return out
 
 
